@@ -281,7 +281,7 @@ sts_n(Source *source, Sink *sink, const size_t n)
         const ssize_t rc = shortcut
             ? sts_atmost_via_source(source, sink, rest)
             : sts_atmost(source, sink, rest);
-        if (rc == -ENOMEM && channel_has_buffer_ext(source, sink)) {
+        if (rc == -ENOMEM && sink->ext.getbuffer != NULL) {
             /* This means that the sink buffer is out of memory. If the source
              * can provide a buffer in the next iteration, we can go on,
              * otherwise we cannot. */
@@ -306,7 +306,7 @@ sts_drain(Source *source, Sink *sink)
         rc = shortcut
             ? sts_atmost_via_source(source, sink, 0u)
             : sts_atmost(source, sink, 0u);
-        if (rc == -ENOMEM && channel_has_buffer_ext(source, sink)) {
+        if (rc == -ENOMEM && sink->ext.getbuffer != NULL) {
             /* This means that the sink buffer is out of memory. If the source
              * can provide a buffer in the next iteration, we can go on,
              * otherwise we cannot. */
